@@ -8,13 +8,14 @@ mkdir -p /tmp/pat
 git diff -- . ':!*_test.go' > /tmp/pat/$name.diff
 echo "patch: $(wc -l < /tmp/pat/$name.diff) lines, files: $(git diff --stat -- . ':!*_test.go' | tail -1)"
 go build ./... && go build -tags verif ./... || { echo "BUILD FAILS"; exit 1; }
-fails=$(go test -vet=off -count=1 -skip 'MutantDemo' ./... 2>&1 | grep -E "^(FAIL|---)" | grep -v TestFrameCodecFuzz | tr '\n' ' ')
+fails=$(go test -vet=off -count=1 -skip 'MutantDemo|ZZMutant' ./... 2>&1 | grep -E "^(FAIL|---)" | grep -v TestFrameCodecFuzz | tr '\n' ' ')
 echo "suite with change (demo skipped): ${fails:-all ok}"
 tags=""; grep -l "go:build verif" $(git ls-files --others --exclude-standard | grep _test.go) >/dev/null 2>&1 && tags="-tags verif"
-d1=$(go test $tags -vet=off -count=1 -run 'MutantDemo' ./... 2>&1 | grep -E "^(--- FAIL|FAIL|panic)" | head -3 | tr '\n' ' ')
+d1=$(go test $tags -vet=off -count=1 -run 'MutantDemo|ZZMutant' ./... 2>&1 | grep -E "^(--- FAIL|FAIL|panic)" | head -3 | tr '\n' ' ')
 echo "demo with change: ${d1:-PASSES (bad)}"
-git stash -q
-d2=$(go test $tags -vet=off -count=1 -run 'MutantDemo' ./... 2>&1 | grep -E "^(--- FAIL|FAIL|panic)" | head -3 | tr '\n' ' ')
-git stash pop -q
+git diff > /tmp/pat/$name.full.diff
+git checkout -q -- .
+d2=$(go test $tags -vet=off -count=1 -run 'MutantDemo|ZZMutant' ./... 2>&1 | grep -E "^(--- FAIL|FAIL|panic)" | head -3 | tr '\n' ' ')
+git apply /tmp/pat/$name.full.diff
 echo "demo without change: ${d2:-passes}"
 cd /repo && git apply --check /tmp/pat/$name.diff && echo "applies to /repo" || echo "DOES NOT APPLY to /repo"
